@@ -215,8 +215,8 @@ def kernel_cases(ctx):
         th = g.uni(0, 6.283)
         nrm.append([rr * math.cos(th), rr * math.sin(th), R, k])
     yield 'std_distance', dist, {'scalars': ['self.k', 'self.radius']}
-    yield 'std_normal', nrm, {'scalars': ['self.k', 'self.radius']}
-    yield 'std_sag', nrm, {'scalars': ['self.k', 'self.radius']}
+    yield 'std_normal', nrm, {'scalars': ['self.k', 'self.radius'], 'tol': 1e-14}   # self.radius**2 on a Python float goes through libm pow (1 ulp)
+    yield 'std_sag', nrm, {'scalars': ['self.k', 'self.radius'], 'tol': 1e-14}
 
 
 # --------------------------------------------------------------------------------------------------
